@@ -560,7 +560,7 @@ CHECKS['C04'].update({
             "directory demand AND no piece a `**` stands for is a symlinked directory); and from it the C04 EQUALITY ON THE MODELS — glob results = paths matchReal accepts — "
             "for every tree and every path: C04_main_globfree (globstar-free patterns), C04_main_one_glob (A/**/B), C04_main_end_glob (A/** and A/**/, provable since the D7 "
             "repair: both accepting spans of the group give the same link test), under EXTGLOB|SCANDOTDIR(+DOTGLOB) with every excluded defect an explicit hypothesis "
-            "(D3 newline, D8 `**/` on a non-directory, D17 literal first segment, POSIX classes in brackets — a limit of the bridge proof only since the D34 repair 421a2e4, which this proof found: D34_bridge_fixed_witness). Supporting: "
+            "(D3 newline, D8 `**/` on a non-directory, D17 literal first segment, — POSIX classes in brackets are covered since the D34 repair 421a2e4, which this proof found: the former hypothesis noPosixPath is removed, posix_bridge_witness / posix_one_glob_witness, D34_bridge_fixed_witness). Supporting: "
             "globSplit_printPath (one part per segment), pass_print_path_real (the REALPATH pass), real_glob_caps / _end (every accepting run binds the group to the same text), "
             "fsMatch_one_glob / fsMatch_end_glob. " + CHECKS['C04']['text'],
 })
